@@ -39,3 +39,4 @@ func vRecordU64(label string, v uint64)                   {}
 func vRecordString(label string, v string)                {}
 func vRecordBytes(label string, v []byte)                 {}
 func vAddrSpelling(site string, addr string) string       { return addr }
+func vRepeats(n int) int                                  { return 1 }
